@@ -18,6 +18,7 @@
 (***************************************************************************)
 EXTENDS Integers, Sequences, FiniteSets, SeqX, TLC
 CONSTANTS MeshIds, GeomNames, MaxDepth, MixedTypesSupported, DimensionPerGeometry, ValuesFollowIds
+CONSTANT Prefix            \* a sequence of calls every history starts with (<<>>: none); lets deeper histories start from a file that already holds geometries
 
 (* ---------------- the mesh catalogue (mirrored in harness/vh/drivers/c20.py) ---------------- *)
 Mesh(k) ==
@@ -90,10 +91,13 @@ AddSet(g, kind, k, members, name) ==            \* kind 0 = node set, 1 = elemen
      IF ~({members[i] : i \in 1..Len(members)} \subseteq universe) \/ geoms[g].mesh = "none"
      THEN lastOk' = FALSE /\ UNCHANGED <<geoms, sets, vars, dim>>
      ELSE sets' = [sets EXCEPT ![g] = Append(@, <<kind, name, members>>)] /\ lastOk' = TRUE /\ UNCHANGED <<geoms, vars, dim>>
+(* "STRESS_NOCOLS": the known variable STRESS_CAUCHY from a frame that lacks its columns (raises while the variable is being written);
+   "STRESS_LC2": STRESS_CAUCHY written from explicitly named other columns of the frame (a second load case); both are stored under the name STRESS_CAUCHY *)
+FileName(v) == IF v \in {"STRESS_NOCOLS", "STRESS_LC2"} THEN "STRESS_CAUCHY" ELSE v
 AddVariable(st, g, v, k) ==                      \* v in {"DISPLACEMENT" (nodal), "STRESS_CAUCHY" (element nodal), "UNKNOWN" (no columns/location given),
                                                  \*        "TEMP" (name unknown to pyLife, given with explicit column names and location NODE)}
   /\ hist' = Append(hist, <<"add_variable", st, g, v, k>>)
-  /\ IF geoms[g].mesh = "none" \/ (\E x \in vars : x.st = st /\ x.g = g /\ x.v = v) \/ v = "UNKNOWN"
+  /\ IF geoms[g].mesh = "none" \/ (\E x \in vars : x.st = st /\ x.g = g /\ FileName(x.v) = FileName(v)) \/ v \in {"UNKNOWN", "STRESS_NOCOLS"}
      THEN lastOk' = FALSE /\ UNCHANGED <<geoms, sets, vars, dim>>
      ELSE /\ vars' = vars \cup {[st |-> st, g |-> g, v |-> v, mesh |-> k,
                                  data |-> IF v \in {"DISPLACEMENT", "TEMP"} THEN NodalI(k) ELSE ElementNodalI(k)]}
@@ -103,15 +107,19 @@ Next ==
   /\ \/ \E g \in GeomNames, k \in MeshIds : AddGeometry(g, k)
      \/ \E g \in GeomNames : \E kind \in {0, 1} : LET k == IF geoms[g].mesh = "none" THEN CHOOSE m \in MeshIds : TRUE ELSE geoms[g].mesh IN
             \E members \in {<<SortedSeq(IF kind = 0 THEN NodeIds(k) ELSE ElemIds(k))[1]>>,
-                            IF kind = 0 THEN <<LastOf(SortedSeq(NodeIds(k))), SortedSeq(NodeIds(k))[1]>> ELSE <<LastOf(SortedSeq(ElemIds(k)))>>,
+                            IF kind = 0 THEN <<LastOf(SortedSeq(NodeIds(k))), SortedSeq(NodeIds(k))[1]>>
+                            ELSE IF Cardinality(ElemIds(k)) >= 2 THEN <<LastOf(SortedSeq(ElemIds(k))), SortedSeq(ElemIds(k))[1]>> ELSE <<LastOf(SortedSeq(ElemIds(k)))>>,
                             <<999>>} : AddSet(g, kind, k, members, IF kind = 0 THEN "ns" ELSE "es")
-     \/ \E st \in {"s1", "s2"}, g \in GeomNames, v \in {"DISPLACEMENT", "STRESS_CAUCHY", "UNKNOWN", "TEMP"} :
+     \/ \E st \in {"s1", "s2"}, g \in GeomNames, v \in {"DISPLACEMENT", "STRESS_CAUCHY", "UNKNOWN", "TEMP", "STRESS_NOCOLS", "STRESS_LC2"} :
             LET k == IF geoms[g].mesh = "none" THEN CHOOSE m \in MeshIds : TRUE ELSE geoms[g].mesh IN AddVariable(st, g, v, k)
+  /\ (Len(hist) < Len(Prefix) => hist'[Len(hist) + 1] = Prefix[Len(hist) + 1])
+NoPrefix == <<>>
+PrefixTwo == << <<"add_geometry", "A", "tri2d">>, <<"add_geometry", "B", "quad2d">> >>
 Spec == Init /\ [][Next]_vs
 
 (* ---------------- properties ---------------- *)
 RoundTripMesh == \A g \in GeomNames : geoms[g].mesh # "none" => ImportIndex(geoms[g]) = MeshIndexD(geoms[g].mesh)
-RoundTripVariables == \A x \in vars : x.v = "STRESS_CAUCHY" => {x.data[i] : i \in 1..Len(x.data)} = ElementNodalD(x.mesh)
+RoundTripVariables == \A x \in vars : x.v \in {"STRESS_CAUCHY", "STRESS_LC2"} => {x.data[i] : i \in 1..Len(x.data)} = ElementNodalD(x.mesh)
 NoPartial == [][(~lastOk') => (geoms' = geoms /\ sets' = sets /\ vars' = vars)]_vs
 (* every valid mesh can be exported, whatever was exported before (history independence) *)
 ValidMeshes == {"tri2d", "quad2d", "tet", "tetmix", "mixed", "mix3", "thin10"}
